@@ -133,6 +133,8 @@ def run_oracle(items):
     def go(its):
         for it in its:
             k = it[0]
+            if k in ("set", "call", "load", "block") and it[1] and it[1][0] == "f" and int(it[1][1:]) >= fresh[0]:
+                raise ValueError("program names a lazily created default that does not exist yet")
             if k == "set":
                 stack[-1] = it[1]
             elif k == "pop":
@@ -277,8 +279,9 @@ def classify(ev_o, meta, flag_o, fin_o, ev_r, flag_r, fin_r):
             continue
         m = meta[i]
         if a[0] != b[0]:
-            if a.startswith("t:boom") or b.startswith("t:"):
-                return "C16:exception-swallowed", f"event {i}: expected {a}, observed {b}", i
+            if m == "exception" or a == "t:boom":
+                return ("C16:exception-swallowed", f"event {i}: an exception should be propagating here (expected {a}), "
+                        f"but execution continued with {b}", i)
             return "C16:trace-shape", f"event {i}: expected {a}, observed {b}", i
         kind = a[0]
         if kind == "x":
@@ -334,13 +337,14 @@ def gen_program(r, max_depth, thorough):
         """returns (items, raised)"""
         items = []
         n = r.randint(0 if depth else 1, 6)
-        for _ in range(n):
-            if budget[0] <= 0:
+        force_at = r.randint(0, n - 1) if (n and depth < target and r.chance(0.8)) else -1
+        for j in range(n):
+            if budget[0] <= 0 and j != force_at:
                 break
             budget[0] -= 1
             u = r.u01()
             can_block = depth < target and len([i for i in ids() if i not in open_ids]) > 0
-            if can_block and u < p_block:
+            if can_block and (u < p_block or j == force_at):
                 cand = [i for i in ids() if i not in open_ids]
                 a = r.choice(cand)
                 if a[0] == "f":
@@ -427,33 +431,79 @@ def split_out(line):
     return wf.strip() == "1", p(i_part), p(s_part)
 
 
-def check_one(ctx, n_named, items, stats=None):
-    """direct check (real vs oracle). Returns the real result."""
+def direct(n_named, items):
+    """the property checked directly on the code: real run vs stack oracle"""
     inst = instrument(items)
     ev_o, meta, flag_o, fin_o = run_oracle(inst)
     ev_r, flag_r, fin_r = run_real(inst, n_named)
     bad = classify(ev_o, meta, flag_o, fin_o, ev_r, flag_r, fin_r)
+    return inst, (ev_r, flag_r, fin_r), (ev_o, flag_o, fin_o), bad
+
+
+def report(ctx, n_named, items, shrunk_from=None):
+    inst, (ev_r, flag_r, fin_r), (ev_o, flag_o, fin_o), bad = direct(n_named, items)
+    sig, what, idx = bad
+    ctx.violation(sig, f"{what}; program `{encode(inst)}` with {n_named} accountants",
+                  {"n_named": n_named, "items": items, "program": encode(inst), "event_index": idx,
+                   "expected": ev_o[max(0, idx - 3):idx + 2], "observed": ev_r[max(0, idx - 3):idx + 2],
+                   "expected_flag": flag_o, "observed_flag": flag_r, "expected_final": fin_o, "observed_final": fin_r,
+                   "shrunk_from": shrunk_from})
+
+
+def _variants(items):
+    """delete one item, or replace a block / try by its body, at any nesting level"""
+    for i, it in enumerate(items):
+        yield items[:i] + items[i + 1:]
+        if it[0] == "block":
+            yield items[:i] + it[2] + items[i + 1:]
+            for v in _variants(it[2]):
+                yield items[:i] + [["block", it[1], v]] + items[i + 1:]
+        elif it[0] == "try":
+            yield items[:i] + it[1] + items[i + 1:]
+            for v in _variants(it[1]):
+                yield items[:i] + [["try", v]] + items[i + 1:]
+
+
+def shrink(n_named, items, sig, max_runs=400):
+    runs = 0
+    progress = True
+    while progress and runs < max_runs:
+        progress = False
+        for v in _variants(items):
+            runs += 1
+            if runs > max_runs:
+                break
+            try:
+                bad = direct(n_named, v)[3]
+            except ValueError:
+                continue
+            if bad and bad[0] == sig:
+                items = v
+                progress = True
+                break
+    return items
+
+
+def check_one(ctx, n_named, items, fails):
+    inst, real, orc, bad = direct(n_named, items)
     if bad:
-        sig, what, idx = bad
-        ctx.violation(sig, f"{what}; program `{encode(inst)}` with {n_named} accountants",
-                      {"n_named": n_named, "items": items, "event_index": idx, "expected": ev_o[max(0, idx - 3):idx + 2],
-                       "observed": ev_r[max(0, idx - 3):idx + 2], "expected_flag": flag_o, "observed_flag": flag_r,
-                       "expected_final": fin_o, "observed_final": fin_r})
-    return inst, (ev_r, flag_r, fin_r), (ev_o, flag_o, fin_o)
+        fails.append((bad[0], n_named, items))
+    return inst, real, orc
 
 
 def check(ctx):
     r = ctx.fork("programs")
     thorough = ctx.tier == "thorough"
     max_depth = 8 if thorough else 4
-    n = ctx.budget(700, 12000)
+    n = ctx.budget(2500, 40000)
     progs = [(k, it, None) for k, it in FIXED]
     for _ in range(n):
         progs.append(gen_program(r, max_depth, thorough))
     lines, reals, oracles = [], [], []
     depth_hist = {}
+    fails = []
     for n_named, items, stats in progs:
-        inst, real, orc = check_one(ctx, n_named, items, stats)
+        inst, real, orc = check_one(ctx, n_named, items, fails)
         lines.append(encode(inst))
         reals.append(real)
         oracles.append(orc)
@@ -465,6 +515,14 @@ def check(ctx):
                 ctx.count("programs_with_raise")
             if stats["fresh_entered"]:
                 ctx.count("programs_entering_lazy_default")
+    # report failures: one shrunk representative per signature first (the runner prints the first), then the rest
+    seen = set()
+    for sig, n_named, items in fails:
+        if sig not in seen and len(seen) < 6:
+            seen.add(sig)
+            report(ctx, n_named, shrink(n_named, items, sig), shrunk_from=encode(instrument(items)))
+    for sig, n_named, items in fails[:150]:
+        report(ctx, n_named, items)
     ctx.note("nesting-depth histogram of generated programs: " + str(dict(sorted(depth_hist.items()))))
     ctx.sample({"program": lines[0], "real_events": reals[0][0], "flag": reals[0][1], "final_default": reals[0][2]})
     if len(lines) > 8:
@@ -522,5 +580,5 @@ def replay(ctx, data):
     ev_r, flag_r, fin_r = run_real(inst, d["n_named"])
     bad = classify(ev_o, meta, flag_o, fin_o, ev_r, flag_r, fin_r)
     if bad:
-        print(f"replay: {bad[0]}: {bad[1]}")
+        print(f"replay: {bad[0]}: {bad[1]}; program `{encode(inst)}`")
     return bad is not None
